@@ -12,6 +12,7 @@ H == INSTANCE HtmlSkip WITH Deviations <- {}, toks <- <<>>, cdata <- "", h <- [s
 AlphaQ1 == H!AlphaQ1
 AlphaQ2 == H!AlphaQ2
 AlphaQ3 == H!AlphaQ3
+AlphaQ4 == H!AlphaQ4
 AlphaT  == H!AlphaT
 AlphaT2 == H!AlphaT2
 
